@@ -88,9 +88,18 @@ pub fn oracle_files(ctx: &mut Ctx) {
         drop(f);
         let dest = rng.below(3);
         let o = case.opts.to_oxi();
+        let preserve = rng.chance(1, 3);
+        if preserve { st.count("preserve_attrs"); }
+        // a destination left over from an earlier run (longer than anything this run writes) must be replaced, not patched
+        if dest == 1 && rng.bool() {
+            let mut junk = case.input.clone();
+            junk.extend(std::iter::repeat(0xA5u8).take(64 + case.input.len()));
+            std::fs::write(&outp, &junk).unwrap();
+            st.count("stale_destination");
+        }
         let outfile = match dest {
-            0 => OutFile::Path { path: None, preserve_attrs: false },
-            1 => OutFile::Path { path: Some(outp.clone()), preserve_attrs: false },
+            0 => OutFile::Path { path: None, preserve_attrs: preserve },
+            1 => OutFile::Path { path: Some(outp.clone()), preserve_attrs: preserve },
             _ => OutFile::None,
         };
         st.count(&format!("dest{}", dest));
@@ -123,6 +132,11 @@ pub fn oracle_files(ctx: &mut Ctx) {
                     st.fail("larger", format!("in-place result has {} bytes, input {}", after.len(), case.input.len()), replay);
                 } else {
                     st.count("inplace_smaller");
+                    if let Outcome::Ok(l) = run_case(&case.input, &case.opts) {
+                        if l != after {
+                            st.fail("file-differs-from-library", "in-place result is not what optimize_from_memory returns for the same options".into(), replay.clone());
+                        }
+                    }
                 }
             }
             1 => {
@@ -132,6 +146,10 @@ pub fn oracle_files(ctx: &mut Ctx) {
                 match std::fs::read(&outp) {
                     Err(_) => st.fail("no-output", "no destination file was written".into(), replay),
                     Ok(b) => {
+                        let lib = match run_case(&case.input, &case.opts) { Outcome::Ok(l) => Some(l), _ => None };
+                        if lib.as_ref().map_or(false, |l| l != &b) {
+                            st.fail("file-differs-from-library", format!("destination holds {} bytes that are not what optimize_from_memory returns for the same options ({} bytes)", b.len(), lib.as_ref().unwrap().len()), replay.clone());
+                        }
                         if b == case.input {
                             st.count("copy_of_original");
                         } else if b.len() < case.input.len() {
